@@ -568,10 +568,63 @@ def reset_state():
                     cur.update(copy.deepcopy(init))
 
 
+# ---------------------------------------------------------------- regex '$' (CrossHair 0.0.110 defect)
+def _dollar_item(pattern):
+    """parsed form of (?=\\n?\\Z): what a non-MULTILINE '$' means in CPython"""
+    from crosshair.libimpl import relib
+
+    look = b"(?=\n?\\Z)" if isinstance(pattern, (bytes, bytearray)) else "(?=\n?\\Z)"
+    return _orig_re_parse[0](look, 0).data[0]
+
+
+def _rewrite_dollar(sub, pattern):
+    from crosshair.libimpl import relib
+
+    def walk(x):
+        if hasattr(x, "data") and isinstance(x.data, list):
+            for i, item in enumerate(x.data):
+                if isinstance(item, tuple) and len(item) == 2 and item[0] is relib.AT and item[1] is relib.AT_END:
+                    x.data[i] = _dollar_item(pattern)
+                else:
+                    walk(item)
+        elif isinstance(x, (tuple, list)):
+            for y in x:
+                walk(y)
+
+    walk(sub)
+    return sub
+
+
+_orig_re_parse = [None]
+
+
+def _install_regex_dollar():
+    """CrossHair's symbolic regex matcher treats a non-MULTILINE '$' as 'end of string' only; CPython also lets it
+    match just before a single trailing newline (re.match('[A-G]$', 'C\\n') succeeds).  Found because a seeded change
+    (a validity test rewritten with re and '$') was CONFIRMED although 'C\\n' breaks it.  The parse tree is rewritten:
+    '$' -> lookahead (?=\\n?\\Z), which the matcher models exactly."""
+    import re
+    from crosshair.libimpl import relib
+
+    if _orig_re_parse[0] is not None:
+        return
+    _orig_re_parse[0] = relib.parse
+
+    def parse(pattern, flags=0, *a, **kw):
+        p = _orig_re_parse[0](pattern, flags, *a, **kw)
+        fl = flags | getattr(getattr(p, "state", None), "flags", 0)
+        if not (fl & re.MULTILINE):
+            _rewrite_dollar(p, pattern)
+        return p
+
+    relib.parse = parse
+
+
 def install():
     if _installed[0]:
         return
     _installed[0] = True
+    _install_regex_dollar()
     _install_int()
     _install_bitops()
     _install_stubs()
@@ -639,4 +692,24 @@ def selftest():
         v = rnd.randint(0, 16 ** w - 1)
         assert binascii.a2b_hex(("%0" + str(w) + "x") % v) == v.to_bytes(w // 2, "big")
         n += 1
+    # '$' rewrite: the rewritten parse tree, compiled by CPython itself, must match exactly like the original
+    import itertools
+    import re
+
+    try:
+        from re import _compiler as _sre_compile
+    except ImportError:  # pragma: no cover
+        import sre_compile as _sre_compile
+    _install_regex_dollar()
+    for pat in (r"[A-G][#b]*$", r"a$|b", r"(x$)?y", r"^a*$", r"a$\n", r"(?:a|b$)+"):
+        tree = _rewrite_dollar(_orig_re_parse[0](pat, 0), pat)
+        new = _sre_compile.compile(tree, 0)
+        old = re.compile(pat)
+        for k in range(0, 4):
+            for tup in itertools.product("aAb#x y\n", repeat=k):
+                t = "".join(tup)
+                for fn in ("match", "search", "fullmatch"):
+                    a_, b_ = getattr(old, fn)(t), getattr(new, fn)(t)
+                    assert (a_ is None) == (b_ is None) and (a_ is None or a_.span() == b_.span()), (pat, t, fn)
+                    n += 1
     return n
